@@ -37,7 +37,9 @@ ASSUMPTIONS = ["(c) waits link_timeout + check period + one probe cycle of "
 REQUIRED = ["probes", "graphs", "graphs_with_cycles", "graphs_with_oneway",
             "histories", "changes_judged", "flood_probes", "link_events",
             "both_directions_one_sweep", "quiet_periods_checked", "ports_hot_plugged",
-            "histories_with_dpids_equal_to_port_numbers"]
+            "histories_with_dpids_equal_to_port_numbers",
+            "histories_with_spanning_tree_options", "histories_with_a_flood_everything_flow",
+            "withdrawals_checked_at_disconnect", "ports_deleted", "ports_readded"]
 TIMEOUT = {"quick": 1500, "thorough": 10800}
 
 _st = {}
@@ -229,7 +231,8 @@ def run_graph (case, rep):
 # (c) end to end
 
 class Topo (object):
-  def __init__ (self, w, n, dpid_base, initial_ports=4):
+  def __init__ (self, w, n, dpid_base, initial_ports=4, hub=False):
+    self.hub = hub
     self.initial_ports = initial_ports
     self.w = w
     self.n = n
@@ -250,6 +253,15 @@ class Topo (object):
     self.sw[i] = sp
     sp.hello()
     self.w.run()
+    if self.hub:
+      # what a hub-like forwarding component installs: everything is flooded
+      # unless a more specific entry says otherwise (the probes must be caught
+      # by discovery's own entry, or they travel on and fake links)
+      import pox.openflow.libopenflow_01 as of
+      con = self.w.core.openflow.getConnection(self.dpids[i])
+      if con is not None:
+        con.send(of.ofp_flow_mod(priority=1, actions=[of.ofp_action_output(port=of.OFPP_FLOOD)]))
+        self.w.run()
 
   def disconnect (self, i):
     sp = self.sw.pop(i)
@@ -317,19 +329,20 @@ TOPOS = {
 }
 
 
-def launch_components (w, link_timeout=None):
+def launch_components (w, link_timeout=None, st_opts=None):
+  st_opts = dict(st_opts or {})
   if _st.get("launched"):
-    if _st.get("lt") != link_timeout:
+    if _st.get("lt") != link_timeout or _st.get("st") != st_opts:
       raise simnet.Inconclusive("one discovery configuration per process")
     return
-  _st["lt"] = link_timeout
+  _st["lt"] = link_timeout; _st["st"] = st_opts
   import pox.openflow.discovery as D
   import pox.openflow.spanning_tree as ST
   if w.core.hasComponent("openflow_discovery"):
     raise simnet.Inconclusive("stub discovery registered in this process")
   if link_timeout: D.launch(link_timeout=link_timeout)
   else: D.launch()
-  ST.launch()
+  ST.launch(**st_opts)
   w.run()
   _st["launched"] = True
   _st["events"] = []
@@ -339,7 +352,8 @@ def launch_components (w, link_timeout=None):
 
 def run_history (case, rep):
   w = world()
-  launch_components(w, case.get("link_timeout"))
+  launch_components(w, case.get("link_timeout"), case.get("st_opts"))
+  if case.get("st_opts"): rep.count("histories_with_spanning_tree_options")
   def fire (key, what):
     rep.violation("C19 e2e: " + key, what, case)
   core = w.core
@@ -352,7 +366,8 @@ def run_history (case, rep):
     base = 1
     rep.count("histories_with_dpids_equal_to_port_numbers")
   topo = Topo(w, n, base,
-              initial_ports=case.get("initial_ports", 4))
+              initial_ports=case.get("initial_ports", 4), hub=bool(case.get("hub")))
+  if case.get("hub"): rep.count("histories_with_a_flood_everything_flow")
   for (i, p, j, q) in wires: topo.wire(i, p, j, q)
   mine = set(topo.dpids)
   ev0 = len(_st["events"])
@@ -392,7 +407,31 @@ def run_history (case, rep):
         a = (op[1], op[2]); b = topo.phys[a]
         topo.up[a] = True; topo.up[b] = True
       elif k == "down":
-        if op[1] in topo.sw and len(topo.sw) > 1: topo.disconnect(op[1])
+        if op[1] in topo.sw and len(topo.sw) > 1:
+          i_ = op[1]
+          # its probes of this round are still on the wire when it goes away
+          w.advance(disc.send_cycle_time)
+          inflight = [f for f in topo.queue]
+          topo.disconnect(i_)
+          topo.deliver()
+          if inflight: rep.count("probes_in_flight_at_disconnect")
+          # withdrawn at once (not merely timed out later)
+          rep.count("withdrawals_checked_at_disconnect")
+          d_ = topo.dpids[i_]
+          left = [tuple(l) for l in disc.adjacency if l[0] == d_ or l[2] == d_]
+          if left:
+            fire("links of a disconnected switch are still in the adjacency "
+                 "right after it disconnected", repr(left[:3])); return True
+      elif k == "port_del":
+        i_, p_ = op[1], op[2]
+        if i_ in topo.sw and p_ in topo.sw[i_].switch.ports:
+          topo.sw[i_].switch.delete_port(p_); w.run()
+          rep.count("ports_deleted")
+      elif k == "port_add":
+        i_, p_ = op[1], op[2]
+        if i_ in topo.sw and p_ not in topo.sw[i_].switch.ports:
+          topo.sw[i_].switch.add_port(topo.sw[i_].switch.generate_port(p_)); w.run()
+          rep.count("ports_readded")
       elif k == "up":
         if op[1] not in topo.sw: topo.connect(op[1])
       elif k == "hotplug":
@@ -618,7 +657,7 @@ def gen_graphs (spec, rng):
       yield dict(kind="graph", links=links)
 
 
-def gen_histories (rng, n, link_timeout=None):
+def gen_histories (rng, n, link_timeout=None, st_opts=None):
   names = sorted(TOPOS)
   for _ in range(n):
     tname = rng.choice(names)
@@ -636,16 +675,23 @@ def gen_histories (rng, n, link_timeout=None):
       elif r < 0.75 and cut:
         c = rng.choice(sorted(cut)); cut.discard(c)
         ops.append(["restore", c[0], c[1]])
-      elif r < 0.88:
+      elif r < 0.85:
         ops.append(["down", rng.randrange(nsw)])
-      else:
+      elif r < 0.93:
         ops.append(["up", rng.randrange(nsw)])
+      else:
+        # a port is removed from a switch (announced by port-status), and put
+        # back later
+        ops.append(["port_del", wi[0], wi[1]])
+        if rng.random() < 0.7: ops.append(["port_add", wi[0], wi[1]])
     case = dict(kind="e2e", topo=tname, ops=ops)
     if rng.random() < 0.25:
       case["initial_ports"] = rng.choice([0, 1])
       case["ops"] = [["hotplug"]] + ops
     if link_timeout: case["link_timeout"] = link_timeout
     if rng.random() < 0.35: case["small_dpids"] = True
+    if rng.random() < 0.3: case["hub"] = True
+    if st_opts: case["st_opts"] = st_opts
     yield case
 
 
@@ -656,14 +702,20 @@ def plan (tier, seed):
             [dict(mode="graph", g="s4p2_sample", n=6000, sub=i) for i in range(2)] +
             [dict(mode="graph", g="rand", n=3000, sub=i) for i in range(2)] +
             [dict(mode="e2e", n=30, sub=i, lt=[None, 2, None, 4, None, 20, None, 3, None][i])
-             for i in range(9)])
+             for i in range(9)] +
+            [dict(mode="e2e", n=20, sub=20 + i, lt=None, st=o)
+             for i, o in enumerate([dict(no_flood=True), dict(hold_down=True),
+                                    dict(no_flood=True, hold_down=True)])])
   return ([dict(mode="probe", n=200000, sub=0)] +
           [dict(mode="graph", g="s3p2", shard=0, nshards=1)] +
           [dict(mode="graph", g="s4p2", shard=i, nshards=96) for i in range(24)] +
           [dict(mode="graph", g="s5p1", shard=i, nshards=8) for i in range(8)] +
           [dict(mode="graph", g="rand", n=300000, sub=i) for i in range(16)] +
           [dict(mode="e2e", n=200, sub=i, lt=[None, 2, None, 4, 20, 3][i % 6])
-           for i in range(48)])
+           for i in range(48)] +
+          [dict(mode="e2e", n=200, sub=100 + i, lt=[None, 3][i % 2], st=o)
+           for i, o in enumerate([dict(no_flood=True), dict(hold_down=True),
+                                  dict(no_flood=True, hold_down=True)] * 4)])
 
 
 def run (spec, rep):
@@ -672,7 +724,7 @@ def run (spec, rep):
                                             spec.get("sub", spec.get("shard", 0))))
   if spec["mode"] == "probe": g = gen_probes(rng, spec["n"])
   elif spec["mode"] == "graph": g = gen_graphs(spec, rng)
-  else: g = gen_histories(rng, spec["n"], spec.get("lt"))
+  else: g = gen_histories(rng, spec["n"], spec.get("lt"), spec.get("st"))
   first = True
   for case in g:
     do_case(case, rep)
